@@ -19,7 +19,7 @@ def cases(seed, tier):
     out = []
     for k in range(n):
         r = random.Random(sch.np_seed(f"c14.{k}"))
-        c = wp.std_case(r, sch.np_seed(f"s{k}"), kinds=("bimodal", "bimodal", "gauss"), scenarios=("plain", "plain", "crash_resume"), blobs=(0,), evals=("scalar", "vector"),
+        c = wp.std_case(r, sch.np_seed(f"s{k}"), kinds=("bimodal", "bimodal", "gauss"), scenarios=("plain", "plain", "crash_resume", "like_raise"), blobs=(0,), evals=("scalar", "vector"),
                         clustering=True, cluster_every=(1, 2, 3, 5, 7), n_max_clusters=(None, None, 1, 2, 3), vv=False, d=r.choice([1, 2, 2, 3]))
         c["cfg"]["n_particles"] = r.choice([16, 24, 32, 64, 96, 128])
         c["cfg"]["ess_ratio"] = r.choice([1.0, 2.0, 4.0])
